@@ -9,16 +9,17 @@ package assets
 //@ import proto "google.golang.org/protobuf/proto"
 //@ import pb "github.com/refraction-networking/conjure/proto"
 
+// (consumes randomness: the position of the system's random stream is the only state it changes)
 //@ func getRandInt(min int, max int) int
-//@   assigns nothing
+//@   assigns drawn
 
 //@ func getRandString(length int) string
 //@   requires length >= 0
 //@   ensures len(result) == length
-//@   assigns nothing
+//@   assigns drawn
 //@ loop 1:
 //@   invariant len(randString) == length && fresh(randString)
-//@   modifies elems(randString)
+//@   modifies elems(randString), drawn
 
 // C20: the ClientConf file is replaced atomically. T is the path of the stored ClientConf.
 // Step invariant (after every call, i.e. at every point where the process can die between two calls):
@@ -31,7 +32,7 @@ package assets
 //@   atcall * after: assert @C20: fs(old(T)) == old(fs(T)) || fs(old(T)) == marshaledMsg(box(old(a.config)))
 //@   ensures @C20: result == nil ==> fs(old(T)) == marshaledMsg(box(old(a.config)))
 //@   ensures @C20: result != nil ==> fs(old(T)) == old(fs(T))
-//@   assigns fs
+//@   assigns fs, drawn
 // Closed world for the ghost file system: any other callee (os.Remove, OpenFile, Truncate, ...) is a failed obligation,
 // so that a file-system effect cannot enter this function without a contract.
 //@   callsonly @C20: proto.Marshal, path.Join, getRandString, os.WriteFile, os.Rename
@@ -42,7 +43,7 @@ package assets
 //@   ensures @C20: err != nil ==> a.config == old(a.config) && fs(old(T)) == old(fs(T))
 //@   ensures @C20: err == nil ==> a.config == conf && fs(old(T)) == marshaledMsg(box(conf))
 //@   ensures @C20: !held(&a.RWMutex) && rheld(&a.RWMutex) == 0
-//@   assigns a.config, fs, held(&a.RWMutex), acq(&a.RWMutex)
+//@   assigns a.config, fs, drawn, held(&a.RWMutex), acq(&a.RWMutex)
 //@   callsonly @C20: RWMutex).Lock, RWMutex).Unlock, saveClientConf
 
 //@ func (a *assets) SetGeneration(gen uint32) (err error)
